@@ -7,6 +7,9 @@ stdin JSON (all keys optional):
    "seq":   [{"filter": id|null, "updates": bool, "events": [[dt_ms, pdu, addr id, txadd, rssi, hex], ...]}, ...]
                                              one AdvertisingDevicesDB per case, on_device_found per event; the name `time`
                                              of whad.ble.scanning is a virtual clock advanced by dt_ms before each call
+   "api":   [[["parse", hex] | ["set", i, j, "name"|"company"|"data", hex|int] | ["ser", i], ...], ...]
+                                             operation sequences in ONE process: lists[i] = i-th successful parse,
+                                             lists[i][j].<attr> = value through the public setter, lists[i].to_bytes()
    "exh":   {"len": 3, "lo": a, "hi": b},    exhaustive oracle on all strings of that length whose first byte is in [a,b)
    "utf8":  {"rows": bool, "decode": [hex, ...], "encode": [[cp, ...], ...]}}   CPython codec facts
 stdout: RESULT {...} (canonical observables only: ints, hex, class names).
@@ -125,7 +128,38 @@ def do_parse(b):
     except Exception as e:  # noqa
         out = {"exc": exc_name(e)}
     out["urls"] = list(URLS)
+    if "out" in out:
+        try:
+            out["reser"] = l.to_bytes().hex()
+        except Exception as e:  # noqa
+            out["reser_exc"] = exc_name(e)
     return out
+
+
+def do_api(ops):
+    del URLS[:]
+    lists, res = [], []
+    for op in ops:
+        if op[0] == "parse":
+            try:
+                l = AdvDataFieldList.from_bytes(bytes.fromhex(op[1]))
+                lists.append(l)
+                res.append({"out": [canon(l[i]) for i in range(len(l))]})
+            except Exception as e:  # noqa
+                res.append({"exc": exc_name(e)})
+        elif op[0] == "set":
+            _, i, j, attr, val = op
+            rec = lists[i][j]
+            if not isinstance(getattr(type(rec), attr, None), property):
+                raise TypeError("no public setter %s on %s" % (attr, type(rec).__name__))
+            setattr(rec, attr, val if attr == "company" else bytes.fromhex(val))
+            res.append({})
+        elif op[0] == "ser":
+            try:
+                res.append({"bytes": lists[op[1]].to_bytes().hex()})
+            except Exception as e:  # noqa
+                res.append({"exc": exc_name(e)})
+    return {"steps": res, "urls": list(URLS)}
 
 
 def mk_uuid(hx):
@@ -369,6 +403,8 @@ def main():
         res["build"] = [do_build(c) for c in req["build"]]
     if "scan" in req:
         res["scan"] = [do_scan(k, bytes.fromhex(h)) for k, h in req["scan"]]
+    if "api" in req:
+        res["api"] = [do_api(c) for c in req["api"]]
     if "seq" in req:
         res["seq"] = [do_seq(c) for c in req["seq"]]
     if "exh" in req:
